@@ -36,7 +36,7 @@ man = {
               "kind_free_text": "bounded symbolic executor for go/ssa (x/tools v0.29.0) with z3 4.8.12 over a pipe; stateless path forking; native replay of counterexamples"}],
  "checks": checks,
  "not_applicable": na,
- "notes": "fix: commits in /repo (genuine defects found by the checks): see /verif/known_findings.json. Lemma specs: /verif/lemmas/*.json; harnesses: /verif/harness/."
+ "notes": "Bounded symbolic execution of the real Go code (engine: /verif/engine, lemmas: /verif/lemmas/*.json, harnesses: /verif/harness/, catalogue: /verif/LEMMAS.md). Genuine defects found by the checks were repaired in /repo with separate fix: commits or recorded as known findings (/verif/known_findings.json; DESIGN.md 9.2). Independent seeded breaking changes: /verif/seeded (tools/seeded.py); property-preserving changes for false-alarm testing: /verif/benign (tools/benign.py). Translator validation: gosym conform."
 }
 json.dump(man, open(f'{root}/MANIFEST.json', 'w'), indent=1)
 print("checks:", props, "not_applicable:", [x['property_id'] for x in na])
